@@ -59,6 +59,7 @@ func (a *mutex[T]) Lock(key T) {
 	mutex, ok := a.items[key]
 	a.lock.RUnlock()
 	if ok {
+		verifPoint("lock.found")
 		mutex.Lock()
 		return
 	}
@@ -70,6 +71,7 @@ func (a *mutex[T]) Lock(key T) {
 		a.items[key] = mutex
 	}
 	a.lock.Unlock()
+	verifPoint("lock.created")
 	mutex.Lock()
 }
 
@@ -88,6 +90,7 @@ func (a *mutex[T]) RLock(key T) {
 	a.lock.RUnlock()
 
 	if ok {
+		verifPoint("rlock.found")
 		mutex.RLock()
 		return
 	}
@@ -99,6 +102,7 @@ func (a *mutex[T]) RLock(key T) {
 		a.items[key] = mutex
 	}
 	a.lock.Unlock()
+	verifPoint("rlock.created")
 	mutex.RLock()
 }
 
